@@ -37,7 +37,7 @@ FLOORS = {"quick": {"pipelines": 1500, "elements_checked": 5000, "packets_throug
                        "el_TwoRateTokenBucket": 4000, "el_SP": 2000, "el_WFQ": 2000, "el_VC": 2000, "el_DRR": 2000,
                        "el_RR": 2000, "el_WRR": 2000, "el_FlowDemux": 1000, "el_FIBDemux": 1000,
                        "el_SimplePacketSwitch": 1000, "el_FairPacketSwitch": 1000}}
-KEYS = tuple(FLOORS["quick"].keys()) + ("table_reconfigurations", "stray_flow_cases", "stray_packets_refused", "random_demux_packets")
+KEYS = tuple(FLOORS["quick"].keys()) + ("table_reconfigurations", "stray_flow_cases", "stray_packets_refused", "random_demux_packets", "port_limit_reassignments")
 # floors for the situations added with the later rounds of seeded changes (evidence that they were really exercised)
 FLOORS["quick"].update({'stray_packets_refused': 400})
 FLOORS["thorough"].update({'stray_packets_refused': 2000})
@@ -538,6 +538,49 @@ def run_stray(case, stats):
     return viol
 
 
+def gen_limit_change(rng):
+    old, new = rng.choice([(1, 8), (2, 10), (3, 20), (10, 2), (20, 3), (8, 1)])
+    return {"kind": "limit-change", "old": old, "new": new, "rate": rng.choice([8000, 64000]), "size": rng.choice([100, 500])}
+
+
+def run_limit_change(case, stats):
+    """a packet-limited port whose public qlimit is reassigned while it is idle: the next burst is tail-dropped by the
+    limit in force (a packet may be discarded only by the element's documented rule)"""
+    from onl.netdev import Port
+    net = vnet.Net()
+    env = net.env
+    port = Port(env, case["rate"], case["old"], False, "p")
+    sink = net.recorder("sink")
+    port.out = sink
+    old, new = case["old"], case["new"]
+    burst = (new - 2) if new > old else (old - 2)
+    res = {}
+
+    def drv():
+        for k in range(old + 3):
+            port.put(net.make_packet(0, case["size"], k))
+        yield env.timeout(1000)                      # long after everything has left
+        port.qlimit = new
+        stats["port_limit_reassignments"] += 1
+        yield env.timeout(1)
+        d0, r0 = port.packets_dropped, port.packets_received
+        for k in range(burst):
+            port.put(net.make_packet(0, case["size"], 100 + k))
+        res["dropped"], res["received"] = port.packets_dropped - d0, port.packets_received - r0
+    env.process(drv())
+    err = net.run()
+    if err:
+        return [(err, "the run raised", net.errors[-1] if net.errors else err)]
+    accepted = res["received"] - res["dropped"]
+    # qlimit n: one packet in transmission + at most n - 1 waiting; at an idle port the first packet of a burst may or may
+    # not have started when the others arrive (same kernel step): between min(burst, n - 1) and min(burst, n) are accepted
+    lo, hi = min(burst, new - 1), min(burst, new)
+    if not (lo <= accepted <= hi):
+        return [("port-drop-rule-ignores-current-limit[Port]", "after port.qlimit was reassigned on an idle port a burst was not tail-dropped by the limit in force",
+                 {"old": old, "new": new, "burst": burst, "accepted": accepted, "expected": [lo, hi]})]
+    return []
+
+
 def gen_random_demux(rng):
     nout = rng.randint(1, 4)
     scale = rng.choice([1, 1, 0.5, 3, 10, 0.1])          # relative weights: they need not sum to 1
@@ -569,6 +612,11 @@ def run_random_demux(case, stats):
 def one_case(ctx, case):
     import collections
     stats = collections.Counter({k: 0 for k in KEYS})
+    if case.get("kind") == "limit-change":
+        viol = run_limit_change(case, stats)
+        for k in KEYS:
+            ctx.count(k, stats[k])
+        return viol, True
     if case.get("kind") == "random-demux":
         viol = run_random_demux(case, stats)
         for k in KEYS:
@@ -589,7 +637,7 @@ def one_case(ctx, case):
 
 def run_shard(ctx):
     for i in ctx.cases(ncases(ctx.tier)):
-        case = gen_stray(ctx.rng(i)) if i % 30 == 11 else gen_random_demux(ctx.rng(i)) if i % 30 == 23 else gen_case(ctx.rng(i), i)
+        case = gen_stray(ctx.rng(i)) if i % 30 == 11 else gen_random_demux(ctx.rng(i)) if i % 30 == 23 else gen_limit_change(ctx.rng(i)) if i % 30 == 17 else gen_case(ctx.rng(i), i)
         viol, nt = one_case(ctx, case)
         for m, what, wit in viol:
             ctx.violation(m, what, wit, case)
